@@ -31,6 +31,21 @@ Theorem execution_is_function_application_partial : forall scfg fe na eid r sr, 
 Proof. exact flat_exec_is_application. Qed.
 Print Assumptions execution_is_function_application_partial.
 
+(* the terms: every result value becomes one term of the position's term type -- canonical lexical form and ECHAR escaping
+   for a literal, the stripped text between angle brackets for an IRI, a label for a blank node -- exactly the terms the
+   generation rules give a function-valued term map; the engine fails only where a value is ill-typed or the function raises *)
+Theorem execution_terms_are_rule_terms_partial : forall cfg scfg fe, cfg_agree cfg scfg -> s_na scfg = c_na cfg ->
+  forall eid pos tt dt r sr, (tt = TLit \/ tt = TIri \/ tt = TBnode) ->
+  (forall e, In e (exec_rows_of (fn_table fe) eid) -> input_ok e) ->
+  (forall e, In e (exec_rows_of (fn_table fe) eid) -> fn_free (input_names e)) ->
+  (forall e n, In e (exec_rows_of (fn_table fe) eid) -> In n (input_names e) -> exists x, rget n r = Some x /\ sval scfg sr n = Some x) ->
+  match mat_exec cfg fe eid pos tt dt r with
+  | Ok rs => map (rget pos) rs = map Some (spec_terms scfg fe KExec eid tt dt sr)
+  | Err e => e = EValue \/ e = EUnmodelled \/ spec_eval scfg fe (fnml_fuel (fn_table fe)) eid sr = None
+  end.
+Proof. exact exec_terms_are_spec_terms. Qed.
+Print Assumptions execution_terms_are_rule_terms_partial.
+
 (* the outcome of a rule with a function-valued term map does not depend on the other rules of the mapping *)
 Theorem execution_rule_independent_of_other_rules : forall cfg fe get_data rules rules' rl,
   star_free rl = true -> mkind_eqb (r_ok rl) KParent = false ->
